@@ -831,6 +831,9 @@ func (f *fctx) compositeLit(cl *ast.CompositeLit) string {
 			el = append(el, f.exprT(e, u.Elem()))
 		}
 		if isByte(u.Elem()) {
+			if len(el) == 0 {
+				return "([] : bytes)" // []byte{}: the empty byte string, as []byte("")
+			}
 			fail("byte slice literal")
 		}
 		return "([" + strings.Join(el, "; ") + "] : " + f.t.gtype(ty) + ")"
